@@ -1,8 +1,11 @@
 package main
 
 import (
+	"net/http"
+
 	"context"
 	"fmt"
+	"google.golang.org/protobuf/reflect/protoreflect"
 	"io"
 	"net/http/httptest"
 	"strconv"
@@ -174,8 +177,20 @@ func selEnc(sels []string) string {
 }
 
 func c19API(c *Ctx) {
+	// the reply tells what the handler received (name, nested.s, i32) and has a populated sub-message,
+	// so that body / response_body mappings show in the response
 	echo := func(ctx context.Context, in *dynamicpb.Message) (proto.Message, error) {
-		return dynamicpb.NewMessage(in.Descriptor().ParentFile().Messages().ByName("Reply")), nil
+		out := dynamicpb.NewMessage(in.Descriptor().ParentFile().Messages().ByName("Reply"))
+		fs, ofs := in.Descriptor().Fields(), out.Descriptor().Fields()
+		ns := ""
+		if nfd := fs.ByName("nested"); nfd != nil && in.Has(nfd) {
+			nm := in.Get(nfd).Message()
+			ns = nm.Get(nm.Descriptor().Fields().ByName("s")).String()
+		}
+		out.Set(ofs.ByName("text"), protoreflect.ValueOfString(fmt.Sprintf("name=%s nested.s=%s i32=%d", in.Get(fs.ByName("name")).String(), ns, in.Get(fs.ByName("i32")).Int())))
+		on := out.Mutable(ofs.ByName("nested")).Message()
+		on.Set(on.Descriptor().Fields().ByName("s"), protoreflect.ValueOfString("reply-nested"))
+		return out, nil
 	}
 	// the same rule as annotation and as service-config rule
 	rulesets := []func() *annotations.HttpRule{
@@ -187,8 +202,15 @@ func c19API(c *Ctx) {
 			return r
 		},
 		func() *annotations.HttpRule { return customRule("PUT", "/c19/put/{name=**}", "nested") },
+		func() *annotations.HttpRule { r := getRule("/c19/rb/{name}"); r.ResponseBody = "nested"; return r },
+		func() *annotations.HttpRule {
+			r := postRule("/c19/rb2/{name}", "nested")
+			r.ResponseBody = "nested"
+			r.AdditionalBindings = []*annotations.HttpRule{{Pattern: &annotations.HttpRule_Get{Get: "/c19/rb3/{name}"}, ResponseBody: "nested"}}
+			return r
+		},
 	}
-	paths := []struct{ verb, path string }{{"GET", "/c19/v/x"}, {"GET", "/c19/v/y"}, {"POST", "/c19/things/t1:act"}, {"GET", "/c19/things/t1:act"}, {"GET", "/c19/a/b/c"}, {"GET", "/c19/alt/5"}, {"GET", "/c19/alt/notanumber"}, {"PUT", "/c19/put/a/b/c"}, {"PUT", "/c19/put"}, {"POST", "/verif.v1.Svc/M"}, {"GET", "/nothing"}}
+	paths := []struct{ verb, path string }{{"GET", "/c19/v/x"}, {"GET", "/c19/v/y"}, {"POST", "/c19/things/t1:act"}, {"GET", "/c19/things/t1:act"}, {"GET", "/c19/a/b/c"}, {"GET", "/c19/alt/5"}, {"GET", "/c19/alt/notanumber"}, {"PUT", "/c19/put/a/b/c"}, {"PUT", "/c19/put"}, {"POST", "/verif.v1.Svc/M"}, {"GET", "/nothing"}, {"GET", "/c19/rb/n1"}, {"POST", "/c19/rb2/n2"}, {"GET", "/c19/rb3/n3"}}
 	for ri, mk := range rulesets {
 		annot, err1 := NewFixture([]*MethodSpec{{Name: "M", In: "Req", Out: "Reply", Unary: echo, Rule: mk()}, {Name: "Other", In: "Req", Out: "Reply", Unary: echo}}, nil)
 		cfgRule := mk()
@@ -200,7 +222,10 @@ func c19API(c *Ctx) {
 			continue
 		}
 		for _, p := range paths {
-			body := func() *strings.Reader { return strings.NewReader("{}") }
+			body := func() *strings.Reader { return strings.NewReader(`{"s":"from-body"}`) }
+			if ri != 3 && ri != 5 { // rules with body "*": the body is the whole request message
+				body = func() *strings.Reader { return strings.NewReader(`{"nested":{"s":"from-body"}}`) }
+			}
 			r1 := httptest.NewRequest(p.verb, p.path, body())
 			r2 := httptest.NewRequest(p.verb, p.path, body())
 			if p.verb == "GET" {
@@ -272,6 +297,33 @@ func c19API(c *Ctx) {
 				c.SpecFail("api-selector", in, fmt.Sprint(e1, p1, p2), "SvcA registers, SvcB is refused", "C19/api/selector-registration", "")
 			} else if e2 == nil {
 				c.SpecFail("api-selector", in, "the second registration was accepted", "a duplicate-rule error (the rule cannot be bound to both methods)", "C19/api/selected-method-silently-unbound", "a rule whose selector covers a method is neither bound to it nor refused")
+			}
+		}
+	}
+
+	// a config rule on an ANNOTATED method that restates the annotation's kind and pattern with another
+	// body mapping: the selected rule behaves exactly as if it were the method's annotation
+	{
+		ann := customRule("PATCH", "/c19/re/{name}", "nested")
+		cfg := customRule("PATCH", "/c19/re/{name}", "*")
+		cfg.Selector = "verif.v1.Svc.M"
+		both, err1 := NewFixture([]*MethodSpec{{Name: "M", In: "Req", Out: "Reply", Unary: echo, Rule: ann}},
+			&serviceconfig.Service{Http: &annotations.Http{Rules: []*annotations.HttpRule{cfg}}})
+		only, err2 := NewFixture([]*MethodSpec{{Name: "M", In: "Req", Out: "Reply", Unary: echo, Rule: customRule("PATCH", "/c19/re/{name}", "*")}}, nil)
+		in := `annotation PATCH /c19/re/{name} body "nested" + selected config rule PATCH /c19/re/{name} body "*"`
+		c.Eval("api-config", in, true)
+		if err1 != nil || err2 != nil || both.RegErr != nil || both.RegPanic != nil || only.RegErr != nil {
+			c.SpecFail("api-config", in, fmt.Sprint(err1, err2, both.RegErr, both.RegPanic), "registered", "C19/api/restate-registration", "a config rule restating an annotated pattern is refused")
+		} else {
+			mkReq := func() *http.Request {
+				r := httptest.NewRequest("PATCH", "/c19/re/n1", strings.NewReader(`{"nested":{"s":"from-body"},"i32":7}`))
+				r.Header.Set("Content-Type", "application/json")
+				return r
+			}
+			rec1, pn1 := only.Serve(mkReq())
+			rec2, pn2 := both.Serve(mkReq())
+			if pn1 != nil || pn2 != nil || rec1.Code != rec2.Code || rec1.Body.String() != rec2.Body.String() {
+				c.SpecFail("api-config", in, fmt.Sprintf("%d %q", rec2.Code, truncS(rec2.Body.String(), 120)), fmt.Sprintf("as the rule written as the annotation: %d %q", rec1.Code, truncS(rec1.Body.String(), 120)), "C19/api/selected-rule-loses-to-annotation", "a selected config rule on an annotated method does not behave like the same rule written as the annotation")
 			}
 		}
 	}
